@@ -35,6 +35,7 @@ RULE = (
     "notation - a custom --parse-format over the supported directives, or "
     "the documented ctime form tried by default - whose output must use that "
     "same format. "
+    "In one case in eight of these kinds the items are piped in (`-`). "
     "kind 'diff': two date-times (one case in four with dyadic decimal "
     "fractions of the smallest time unit; then within 1 us) with offsets1/2: "
     "the "
@@ -57,10 +58,14 @@ ASSUMPTIONS = [
 ]
 
 
-def run_main(argv, env, sys_cfg, reset_mode="gregorian"):
+def run_main(argv, env, sys_cfg, reset_mode="gregorian", stdin=None):
     """Run main(argv) in-process -> (stdout, stderr, exit code, escaped exc)."""
+    import sys
     from metomi.isodatetime import main as M_main
     out, err = io.StringIO(), io.StringIO()
+    saved_stdin = sys.stdin
+    if stdin is not None:
+        sys.stdin = io.StringIO(stdin)
     code = None
     exc = None
     saved = {k: os.environ.get(k) for k in ("ISODATETIMECALENDAR",
@@ -78,6 +83,7 @@ def run_main(argv, env, sys_cfg, reset_mode="gregorian"):
             except BaseException as e:      # noqa: B902
                 exc = e
     finally:
+        sys.stdin = saved_stdin
         for k, v in saved.items():
             if v is None:
                 os.environ.pop(k, None)
@@ -269,8 +275,17 @@ def check_case_inner(case):
     env = dict(case.get("env", {}))
     sys_cfg = case["sys"]
     try:
-        out, err, code, exc = run_main(argv, env, sys_cfg)
-        shown = "main(%r) env=%r" % (argv, env)
+        stdin = None
+        if case.get("stdin") and "--" in argv:
+            # the items are piped in: "-" as the only item reads them from
+            # standard input, one per line
+            k = argv.index("--")
+            stdin = "".join(x + "\n" for x in argv[k + 1:])
+            argv = argv[:k] + ["-"]
+            classes.append("items_from_stdin")
+        out, err, code, exc = run_main(argv, env, sys_cfg, stdin=stdin)
+        shown = "main(%r) env=%r" % (argv, env) + (
+            " stdin=%r" % stdin if stdin is not None else "")
         if exc is not None:
             fail = "escaped: %s raised %s: %s" % (shown, type(exc).__name__, exc)
         elif kind == "bad":
@@ -635,7 +650,7 @@ def st_shift(draw):
         argv += [pos] + frag
     else:
         argv += frag + [pos]
-    return {"kind": "shift", "mode": mode, "mode_via": via, "argv": argv,
+    return {"stdin": draw(st.integers(0, 7)) == 0, "kind": "shift", "mode": mode, "mode_via": via, "argv": argv,
             "env": env, "sys": list(draw(SYS)), "arg": arg, "offsets": offs,
             "ref_via": ref_via, "print": pr}
 
@@ -677,7 +692,7 @@ def st_shift_pf(draw):
     if draw(st.integers(0, 3)) == 0:
         argv.append("--utc")
     argv += ["--", text]
-    return {"kind": "shift_pf", "mode": mode, "mode_via": via, "argv": argv,
+    return {"stdin": draw(st.integers(0, 7)) == 0, "kind": "shift_pf", "mode": mode, "mode_via": via, "argv": argv,
             "env": env, "sys": list(draw(SYS)), "fmt": fmt, "ctime": ctime,
             "p": kw, "offsets": offs}
 
@@ -725,7 +740,7 @@ def st_diff(draw):
         argv = [t1] + argv + [t2]
     else:
         argv = [t1, t2] + argv
-    return {"kind": "diff", "mode": mode, "mode_via": via, "argv": argv,
+    return {"stdin": draw(st.integers(0, 7)) == 0, "kind": "diff", "mode": mode, "mode_via": via, "argv": argv,
             "env": env, "sys": list(draw(SYS)), "arg1": a1, "arg2": a2,
             "offsets1": o1, "offsets2": o2, "total": total}
 
